@@ -13,6 +13,7 @@ DEFAULT_P = dict(
     n_species=(1, 4), n_reactions=(0, 3), max_order=3, n_envs=(1, 3),
     p_graph=0.4, max_cells=12, max_dim=4, allow_len1_periodic=True, allow_len2_periodic=True,
     graph_nodes=(1, 6), graph_edges=(0, 8), allow_self_loops=False, allow_parallel=False,
+    p_zero_surface=0.08,     # graph edges with surface 0
     chem="mixed",            # none | species | entry | mixed
     state="mixed",           # default | explicit | mixed
     integer_state=False,     # explicit states are integer molecule counts
@@ -116,6 +117,10 @@ def gen_spec(rs, p=None):
             seen.add(key)
             edges.append({"i": i, "j": j, "S": (vbase * rs.loguniform(0.3, 3.0)) ** 2,
                           "dist": vbase * rs.loguniform(0.3, 3.0)})
+        rg = rs.sub("gate")
+        for e_ in edges:
+            if rg.chance(p["p_zero_surface"]):
+                e_["S"] = 0.0       # a closed gate: a valid edge across which nothing diffuses
         space = {"type": "graph", "nodes": nodes, "edges": edges}
         nc = nn
         vols = [n["vol"] for n in nodes]
